@@ -19,8 +19,8 @@ ASSUMPTIONS = ['the recorded error tree (observe.flatten) is the reference for h
 HOSTILE = ['A~B', 'A*B', 'A:B', 'A^B', '~', 'X*Y*Z', 'P:Q:R', 'A~B*C:D']
 
 
-# positions whose content is copied from the input (everything else is the acknowledgement's own doing)
-ECHO = {'AK1': {1, 2, 3}, 'AK2': {1, 2, 3}, 'AK3': {1, 3}, 'IK3': {1, 3}, 'AK4': {4}, 'IK4': {4}, 'TA1': {1, 2, 3},
+# positions whose content is copied from the input (everything else is the acknowledgement's own doing); AK902 is the GE01 received
+ECHO = {'AK1': {1, 2, 3}, 'AK2': {1, 2, 3}, 'AK9': {2}, 'AK3': {1, 3}, 'IK3': {1, 3}, 'AK4': {4}, 'IK4': {4}, 'TA1': {1, 2, 3},
         'ISA': {5, 6, 7, 8, 11, 12, 15}, 'GS': {2, 3, 6, 7}, 'CTX': {1, 2, 3, 4, 5, 6}}
 
 
